@@ -682,6 +682,27 @@ struct Mixed {
             ctx.st.checks++;
             return true;
         }
+        if (k == "sdann") { // a label or description on a dataset (the annotation names the dataset's NDG)
+            if (skip_sd || !need_sd() || !need_an())
+                return skip_sd ? false : true;
+            int32 ix = SDnametoindex(sdid, strf("sd%d", modn(o.arg(0), 5)).c_str());
+            if (ix < 0)
+                return false;
+            int32 sds = SDselect(sdid, ix);
+            if (MX("SDselect", sds == FAIL))
+                return true;
+            int32 ref = SDidtoref(sds);
+            SDendaccess(sds);
+            if (ref <= 0)
+                return false;
+            int32 an = ANcreate(anid, DFTAG_NDG, (uint16)ref, (o.arg(1) & 1) ? AN_DATA_DESC : AN_DATA_LABEL);
+            if (MX("ANcreate", an == FAIL))
+                return true;
+            std::string txt = strf("sd-annotation-%lld", (long long)o.arg(2));
+            MX("ANwriteann", ANwriteann(an, txt.c_str(), (int32)txt.size()) == FAIL);
+            MX("ANendaccess", ANendaccess(an) == FAIL);
+            return true;
+        }
         if (k == "annew" || k == "anread") {
             if (!need_an())
                 return true;
